@@ -106,6 +106,20 @@ CLAIMS = {
         "control_behavior — third-party run-time behaviour, outside the reach of source analysis of /repo), and equality of behaviour between decoded text and plan.",
    technique="sibling-implementation trace comparison + writer/reader bag-key agreement + CFG/guard-chain checks",
    ref="DESIGN.md §2 C07"),
+ "C03": dict(
+   text="Static analysis: the two gate placements are compared as data (same signal, same constant, comparators complementary over the integers around the constant, copy-count, same output); "
+        "typestate of the enable in the lowerer (every signal-valued enable is retyped to the gates' signal; the two constant-one recognisers agree; the enable sinks on both gates; the signal "
+        "is reserved and excluded from allocation); the two explicit wires and the planner's colour locks agree; reads are sourced by the hold gate; gate keys are read by the configurator; "
+        "both optimizers re-point both operands of a memory write. NOT decided: holding across an enable edge, one-tick glitches, arbitrary data expressions, readers not disturbing the value.",
+   technique="table semantics over placement literals + CFG typestate + colour agreement + bag-key agreement + IR-schema slots",
+   ref="DESIGN.md §2 C03"),
+ "C04": dict(
+   text="Static analysis (thin, stated as such): guard dominance of the arithmetic-feedback rewrite; on every path that records the optimisation the gates are flagged, the source and every "
+        "recorded read re-pointed (CFG must-pass-through); the feedback flag has a reader that adds an output->input self-wire whose colour equals the planner's lock; chains register last->first; "
+        "the dependence walk and first-consumer search inspect both operands; reverse/self edges are classified bidirectional without extra exclusions and routed directly. NOT decided: the latency L, "
+        "value(t+L) = f(value(t)), equality of folded and unfolded forms — tick dynamics.",
+   technique="CFG dominance/must-pass-through + writer/reader key agreement + guard-chain analysis",
+   ref="DESIGN.md §2 C04"),
 }
 NA_DEFAULT = "check not built yet (build phase in progress); see DESIGN.md for the planned rules"
 NA = {}
